@@ -92,6 +92,30 @@ fn create_cstore_response(
     ])
 }
 
+/// Build the name of the file in which to store an instance,
+/// from the SOP instance UID given by the peer.
+///
+/// Any character which could not be part of a UID
+/// (such as path separators)
+/// is replaced,
+/// so that the outcome is always a plain file name
+/// to be placed directly inside the output directory.
+fn instance_file_name(sop_instance_uid: &str) -> String {
+    let mut name: String = sop_instance_uid
+        .trim_end_matches('\0')
+        .chars()
+        .map(|c| {
+            if c.is_ascii_alphanumeric() || matches!(c, '.' | '-' | '_') {
+                c
+            } else {
+                '_'
+            }
+        })
+        .collect();
+    name.push_str(".dcm");
+    name
+}
+
 fn create_cecho_response(message_id: u16) -> InMemDicomObject<StandardDataDictionary> {
     InMemDicomObject::command_from_element_iter([
         DataElement::new(tags::COMMAND_FIELD, VR::US, dicom_value!(U16, [0x8030])),
